@@ -19,7 +19,7 @@ static void c14_gen(Tape &t, Case &c) {
   b.I(kind);
   if (kind) { std::string cs, rs; gen_basis(t, g.m, cs, rs); b.S(cs).S(rs); }
   c.ops.push_back(b);
-  c.ops.push_back(Op("how").I(t.below(4)).I(t.below(5)));   // write mode, follow-up
+  c.ops.push_back(Op("how").I(t.below(4)).I(t.below(5)).I(t.below(3)));   // write mode, follow-up, solved before loading (no/primal/dual)
 }
 
 static bool same_basis_upto_free(const Model &m, const std::string &c1, const std::string &r1, const std::string &c2, const std::string &r2, std::string *why) {
@@ -64,6 +64,15 @@ static void c14_run(const Case &c, Result &r) {
     if (bo.s.size() < 2 || (int)bo.s[0].size() != m.n() || (int)bo.s[1].size() != m.m()) { mpq_QSfree_prob(p); r.verdict = DISCARD; return; }
     cs = bo.s[0]; rs = bo.s[1];
     r.label("basis:arbitrary");
+    // in two thirds of these cases the problem has been solved before (the simplex structure then holds another
+    // basis than the one loaded below)
+    int pre = ho.i.size() > 2 ? (int)ho.i[2] % 3 : 0;
+    if (pre) {
+      int st = 0;
+      mpq_QSset_param(p, QS_PARAM_SIMPLEX_MAX_ITERATIONS, 500);
+      if (pre == 1) mpq_QSopt_primal(p, &st); else mpq_QSopt_dual(p, &st);
+      r.label(std::string("solved-before-load:") + (st == QS_LP_OPTIMAL ? "OPTIMAL" : "other"));
+    }
   }
   // a valid basis uses FREE only for columns without finite bounds; a basis that the solver hands back
   // with FREE on a bounded column is C12's subject (the file format has no code for it)
